@@ -46,7 +46,13 @@ func main() {
 	report := len(os.Args) > 1 && os.Args[1] == "-report"
 
 	var cfg config
-	data, err := os.ReadFile(filepath.Join(vd, "extract/cmd/c05/guards.json"))
+	// C05_GUARDS: an alternative reviewed configuration (used to try a
+	// configuration change together with a repair of the repository).
+	guardsPath := filepath.Join(vd, "extract/cmd/c05/guards.json")
+	if g := os.Getenv("C05_GUARDS"); g != "" {
+		guardsPath = g
+	}
+	data, err := os.ReadFile(guardsPath)
 	if err != nil {
 		die("%v", err)
 	}
